@@ -130,6 +130,18 @@ def _run(F, R, ctx):
         flagval = [b["args"] for _, b in fn.calls() if re.search(r"Atomic(Bool|<bool>)\}::store$", b["callee"])]
         want_flag = "const:1" if nm == "interrupt" else "const:0"
         okf = any(want_flag in a for a in flagval)
+        if nm == "interrupt":
+            # the state is published before the flag: a thread leaving a safepoint parks when it finds the flag raised and the
+            # state not (yet) Interrupted, and nobody unparks a thread that is to be interrupted
+            fl = [i for i, b in fn.calls() if re.search(r"Atomic(Bool|<bool>)\}::store$", b["callee"])]
+            stt = [i for i, b in fn.calls() if re.search(r"AtomicCell<T>\}::store$", b["callee"])]
+            order_ok = bool(fl) and bool(stt) and all(any(f_ in fn.reachable_from(fn.succ(s_)) for s_ in stt) for f_ in fl) and \
+                not any(s_ in fn.reachable_from(fn.succ(f_)) for s_ in stt for f_ in fl)
+            R.inst("C17.e", "ThreadStateController::interrupt publishes the state before the pause flag", order_ok,
+                   "ThreadStateController::interrupt raises the pause flag before it stores ThreadState::Interrupted: a thread "
+                   "leaving a safepoint between the two stores sees `paused` with a state that is not Interrupted, parks, and is "
+                   "never unparked — the interrupt is lost and the evaluation hangs (observed about once in ten runs)",
+                   fn.loc(), sample=True)
         R.inst("C17.e", "ThreadStateController::%s publishes paused=%s and state=%s" % (nm, want_flag[-1], want_state),
                st_flag and st_state and okf and want_state in agg,
                "ThreadStateController::%s no longer stores both the paused flag (%s) and ThreadState::%s" % (nm, want_flag, want_state),
